@@ -196,11 +196,16 @@ type zzFinFlow struct {
 	nextClient uint16
 	nextServer uint16
 	nbody      int
+	varlen     bool // every body length chosen independently in 0..nbody instead of exactly nbody
 }
 
 // push stores a message with a fresh symbolic body of nbody bytes and returns its raw bytes (header + body).
 func (f *zzFinFlow) push(name string, typ handshake.Type, isClient bool, epoch uint16) []byte {
-	return f.pushBody(typ, isClient, epoch, zzsymBytes(name, f.nbody))
+	n := f.nbody
+	if f.varlen {
+		n = zzsymChoice(name+"_len", f.nbody+1)
+	}
+	return f.pushBody(typ, isClient, epoch, zzsymBytes(name, n))
 }
 
 func (f *zzFinFlow) pushBody(typ handshake.Type, isClient bool, epoch uint16, body []byte) []byte {
@@ -353,8 +358,8 @@ func zzFinClient() {
 
 // Abbreviated (session resumption) handshake, client side: handleResumption (called by flight3Parse when the
 // ServerHello echoes the offered session id) on a cache holding optionally the first ClientHello +
-// HelloVerifyRequest, then ClientHello, ServerHello and the server's Finished (epoch 1); bodies NBODY arbitrary
-// bytes, verify_data 12 (or 11) arbitrary bytes, resumed master secret NMS arbitrary bytes. Proved: Flight5b
+// HelloVerifyRequest, then ClientHello, ServerHello and the server's Finished (epoch 1); bodies 0..NBODY+1
+// arbitrary bytes each (lengths independent), verify_data 12 (or 11) arbitrary bytes, resumed master secret NMS arbitrary bytes. Proved: Flight5b
 // (client goes on to send its own Finished) is returned only if verify_data = PRF(master_secret,
 // "server finished", Hash(ClientHello + ServerHello))[0..11] (RFC 5246 section 7.3 figure 2: these are all the
 // messages that precede the server's Finished in an abbreviated handshake; the cookie-less ClientHello and the
@@ -369,7 +374,7 @@ func zzFinResumeClient() {
 	state.SessionID = []byte{7}
 	cfg := zzFinConfig()
 
-	fl := &zzFinFlow{cache: dtlsflight.NewCache(), nbody: zzsymParam("NBODY")}
+	fl := &zzFinFlow{cache: dtlsflight.NewCache(), nbody: zzsymParam("NBODY") + 1, varlen: true}
 	hvr := zzsymChoice("hvr", 2) == 1
 	if hvr {
 		fl.push("ch0", handshake.TypeClientHello, true, 0)
@@ -410,7 +415,7 @@ func zzFinResumeClient() {
 
 // Abbreviated (session resumption) handshake, server side: flight4bParse on a cache holding optionally the
 // first ClientHello + HelloVerifyRequest, then ClientHello, ServerHello, the server's own Finished (epoch 1)
-// and the client's Finished (epoch 1); bodies NBODY arbitrary bytes, the client's verify_data 12 (or 11)
+// and the client's Finished (epoch 1); bodies 0..NBODY+1 arbitrary bytes each (lengths independent), the client's verify_data 12 (or 11)
 // arbitrary bytes, master secret NMS arbitrary bytes. Proved: Flight4b (handshake complete) is returned only if
 // verify_data = PRF(master_secret, "client finished", Hash(ClientHello + ServerHello + server Finished))[0..11]
 // (RFC 5246 section 7.3 figure 2 order, label of the peer); otherwise fatal handshake_failure +
@@ -424,7 +429,7 @@ func zzFinResumeServer() {
 	state.SessionID = []byte{7}
 	cfg := zzFinConfig()
 
-	fl := &zzFinFlow{cache: dtlsflight.NewCache(), nbody: zzsymParam("NBODY")}
+	fl := &zzFinFlow{cache: dtlsflight.NewCache(), nbody: zzsymParam("NBODY") + 1, varlen: true}
 	hvr := zzsymChoice("hvr", 2) == 1
 	if hvr {
 		fl.push("ch0", handshake.TypeClientHello, true, 0)
@@ -592,4 +597,56 @@ func zzFinServerFull() {
 	// RFC 5246 7.4.9: handshake_messages for the client's Finished = everything before it, 7.3 order
 	want := zzFinExpect(state.MasterSecret, zzLabelClient, zzFinCat(ch, sh, cert, ske, creq, shd, ccert, cke, cv))
 	zzsymAssert(zzsymEqBytes(verifyData, want), "fin_server_full/client_finished_not_verified")
+}
+
+// The property in its end-to-end form for the full handshake, client side: an honest server computes its
+// Finished over ITS view of the transcript (bodies "peer_*"), the client holds its own view (bodies "own_*",
+// same message kinds: ClientHello, ServerHello, Certificate, ServerKeyExchange, CertificateRequest,
+// ServerHelloDone, client Certificate, ClientKeyExchange, CertificateVerify, client Finished; NBODY arbitrary
+// bytes each, i.e. an on-path attacker may have altered any byte of any message in either direction), both
+// share the master secret. Under the named assumption that Hash and PRF do not collide on the two transcripts
+// (stated as an explicit zzsymAssume on exactly these two inputs), flight5Parse reports completion (Flight5)
+// only if the two views are byte-for-byte identical, and it does complete when they are.
+//
+//symgo:entry covers=untampered_accepted,tampered_rejected
+func zzFinClientTamper() {
+	zzFinReset()
+	suite := &zzFinSuite{auth: ciphersuite.AuthenticationTypeCertificate, kx: ciphersuite.KeyExchangeAlgorithmEcdhe, initialized: true}
+	state := zzFinState(true, suite, zzsymParam("NMS"))
+	cfg := zzFinConfig()
+	kinds := []struct {
+		name     string
+		typ      handshake.Type
+		isClient bool
+		epoch    uint16
+	}{
+		{"ch", handshake.TypeClientHello, true, 0}, {"sh", handshake.TypeServerHello, false, 0},
+		{"cert", handshake.TypeCertificate, false, 0}, {"ske", handshake.TypeServerKeyExchange, false, 0},
+		{"creq", handshake.TypeCertificateRequest, false, 0}, {"shd", handshake.TypeServerHelloDone, false, 0},
+		{"ccert", handshake.TypeCertificate, true, 0}, {"cke", handshake.TypeClientKeyExchange, true, 0},
+		{"cv", handshake.TypeCertificateVerify, true, 0}, {"cfin", handshake.TypeFinished, true, 1},
+	}
+	own := &zzFinFlow{cache: dtlsflight.NewCache(), nbody: zzsymParam("NBODY")}
+	peer := &zzFinFlow{cache: dtlsflight.NewCache(), nbody: zzsymParam("NBODY")}
+	var ownT, peerT []byte
+	for _, k := range kinds {
+		ownT = append(ownT, own.push("own_"+k.name, k.typ, k.isClient, k.epoch)...)
+		peerT = append(peerT, peer.push("peer_"+k.name, k.typ, k.isClient, k.epoch)...)
+	}
+	// the honest server's Finished, RFC 5246 7.4.9, over the server's view
+	verifyData := zzFinExpect(state.MasterSecret, zzLabelServer, peerT)
+	// named assumption: no hash / PRF collision between the two views
+	zzsymAssume(zzsymImplies(zzsymEqBytes(verifyData, zzFinExpect(state.MasterSecret, zzLabelServer, ownT)), zzsymEqBytes(peerT, ownT)))
+	state.HandshakeRecvSequence = int(own.nextServer)
+	own.pushBody(handshake.TypeFinished, false, 1, verifyData)
+
+	next, _, _ := flight5Parse(context.Background(), &zzFinConn{}, state, own.cache, cfg)
+	same := zzsymEqBytes(peerT, ownT)
+	if next != 0 {
+		zzsymAssert(same, "fin_client_tamper/completes_only_on_identical_views")
+		zzsymCover("untampered_accepted")
+	} else {
+		zzsymAssert(zzsymNot(same), "fin_client_tamper/identical_views_complete")
+		zzsymCover("tampered_rejected")
+	}
 }
